@@ -318,19 +318,19 @@ static int drv_enum(vop_t *ops, int max)
         int room = npre < MAXALLOC || (raw_ptr(&S[s].data) != NULL);
         for (c = 0; c < (NW >= 1 ? 3 : 2) && room; c++) { ADD(0, s, c, 0, 0); if (FAULTS) { ADD(0, s, c, 1, 0); ADD(0, s, c, 2, 0); } }
         ADD(0, s, 0, 0, 1);
-        for (t = 1; t <= NS; t++) { ADD(1, s, t, 0, 0); if (t > s) ADD(2, s, t, 0, 0); }
+        for (t = 1; t <= NS; t++) { ADD(1, s, t, 0, 0); if (t >= s) ADD(2, s, t, 0, 0); }   /* t == s: swapped with itself */
         ADD(3, s, 0, 0, 0); ADD(4, s, 0, 0, 0); ADD(5, s, 0, 0, 0);
     }
     for (w = 1; w <= NW; w++) {
         for (s = 1; s <= NS; s++) { ADD(6, w, s, 0, 0); ADD(7, w, s, 0, 0); }
-        for (t = w + 1; t <= NW; t++) ADD(8, w, t, 0, 0);
+        for (t = w; t <= NW; t++) ADD(8, w, t, 0, 0);
         ADD(9, w, 0, 0, 0);
     }
     for (u = 1; u <= NU; u++) {
         for (c = 0; c < 2; c++) { ADD(10, u, c, 0, 0); if (FAULTS) ADD(10, u, c, 1, 0); }
         ADD(10, u, 0, 0, 1);
         ADD(11, u, 0, 0, 0); ADD(11, u, 1, 0, 0); ADD(11, u, 2, 0, 0); ADD(11, u, 3, 0, 0); ADD(13, u, 0, 0, 0); ADD(14, u, 0, 0, 0);
-        for (t = u + 1; t <= NU; t++) ADD(12, u, t, 0, 0);
+        for (t = u; t <= NU; t++) ADD(12, u, t, 0, 0);
     }
     if (STRAY) for (f = 1; f <= NFN; f++) for (pos = 1; pos <= fn_nargs(f); pos++) {
         char k = fn_kind(f, pos), ko = fn_nargs(f) > 1 ? fn_kind(f, 3 - pos) : 0;
@@ -353,16 +353,16 @@ static int drv_random(unsigned long (*rnd)(void), vop_t *op)
     if (ntab > MAXA - 4 || a_nblk > A_MAX - 8) return 0;      /* tables full: end this walk */
     if (r < 14 && (npre < MAXALLOC || raw_ptr(&S[s].data))) { op->k = 0; op->a[0] = s; op->a[1] = (int)(rnd() % (NW >= 1 ? 3 : 2)); op->a[2] = FAULTS && rnd() % 6 == 0 ? 1 + (int)(rnd() & 1) : 0; op->a[3] = rnd() % 12 == 0; }
     else if (r < 30) { op->k = 1; op->a[0] = s; op->a[1] = t; }
-    else if (r < 36 && s != t) { op->k = 2; op->a[0] = s; op->a[1] = t; }
+    else if (r < 36) { op->k = 2; op->a[0] = s; op->a[1] = t; }
     else if (r < 50) { op->k = 3; op->a[0] = s; }
     else if (r < 54) { op->k = 4 + (int)(rnd() & 1); op->a[0] = s; }
     else if (r < 62 && w) { op->k = 6; op->a[0] = w; op->a[1] = s; }
     else if (r < 72 && w) { op->k = 7; op->a[0] = w; op->a[1] = s; }
-    else if (r < 75 && w && w != w2) { op->k = 8; op->a[0] = w; op->a[1] = w2; }
+    else if (r < 75 && w && w2) { op->k = 8; op->a[0] = w; op->a[1] = w2; }
     else if (r < 82 && w) { op->k = 9; op->a[0] = w; }
     else if (r < 88 && u) { op->k = 10; op->a[0] = u; op->a[1] = (int)(rnd() & 1); op->a[2] = FAULTS && rnd() % 6 == 0; op->a[3] = rnd() % 12 == 0; }
     else if (r < 91 && u) { op->k = 11; op->a[0] = u; op->a[1] = (int)(rnd() % 4); }
-    else if (r < 94 && u && u != u2) { op->k = 12; op->a[0] = u; op->a[1] = u2; }
+    else if (r < 94 && u && u2) { op->k = 12; op->a[0] = u; op->a[1] = u2; }
     else if (r < 97 && u) { op->k = 13; op->a[0] = u; }
     else if (u) { op->k = 14; op->a[0] = u; }
     else { op->k = 5; op->a[0] = s; }
